@@ -20,14 +20,16 @@ from props.simcommon import FORCES, base_out
 RULE = ("cases = generated dyadic specifications (2/3 without stochastic transitions; models with filter-restricted choices exercise the "
         "repeat/tile product and the segment ids) x base batches of 5-13 agents with pairwise different states x {permutation, subset, "
         "duplication, reversed key order}; distinct = structural signature; evaluations = agent rows compared across batches")
-ASSUMPTIONS = ["exact equality of rows (same arithmetic per agent; dyadic inputs)"]
+ASSUMPTIONS = ["exact equality of rows (same arithmetic per agent; dyadic inputs)",
+               "log grids are not generated here: with non-dyadic arithmetic XLA may round the same expression differently for different batch shapes, "
+               "and a mathematical tie between two choices can then be broken differently (same value, other maximiser) - not a dependence on other agents"]
 
 
 def cases(seed, tier):
     n = 30 if tier == "quick" else 400
     out = []
     for i in range(n):
-        f = list(FORCES[i % len(FORCES)] or [])
+        f = [x for x in (FORCES[i % len(FORCES)] or []) if x != "log"]   # exact row equality presupposes dyadic arithmetic (see ASSUMPTIONS)
         if i % 3 != 2:
             f = [x for x in f if x != "stoch"] + ["nostoch"]
         if i % 4 == 1:
@@ -87,8 +89,8 @@ def run_case(case):
         params = params_impl(P)
         V = fns.solve(params)
 
-        def sim(ini, order=None):
-            d = init_impl(mj, ini)
+        def sim(ini, order=None, int_cont=False):
+            d = init_impl(mj, ini, int_cont=int_cont)
             if order is not None:
                 d = {k: d[k] for k in order}
             return frame_rows(fns.simulate(params, initial_states=d, vf_arr_list=V, seed=seed), mj, len(next(iter(ini.values()))))
@@ -140,6 +142,22 @@ def run_case(case):
                 if not _rows_equal(rows[t][j], base[t][j]):
                     vs.append({"clause": "the order of the keys of initial_states is irrelevant", "detail": f"period {t} agent {j}: {base[t][j]} vs {rows[t][j]}"})
                     break
+        # dtype of a batch: integer-valued continuous states passed with an integer dtype (legal: 20 and 20.0 are the same state)
+        # against the same agents in a batch that also contains a fractional agent (float dtype)
+        cont = [s for s, g in mj["states"] if g["k"] != "disc"]
+        if cont and n <= 64 and not vs:
+            ints = {s: ([Fr(int(x)) for x in v] if s in cont else list(v)) for s, v in init.items()}
+            plus = {s: (v + [v[0] + Fr(1, 2)] if s in cont else v + [v[0]]) for s, v in ints.items()}
+            rows_i = sim(ints, int_cont=True)
+            rows_p = sim(plus)
+            for t in periods:
+                for j in range(n):
+                    evals += 1
+                    if not _rows_equal(rows_i[t][j], rows_p[t][j]):
+                        vs.append({"clause": "simulating a subset gives the same paths",
+                                   "detail": f"period {t}: agent {j} in an integer-typed batch {rows_i[t][j]} vs in the batch with one more (fractional) agent {rows_p[t][j]}"})
+                        break
+            out["hist"]["int_dtype_batch"] = 1
     except Exception as e:  # noqa: BLE001
         out["violations"].append({"clause": "simulate runs on a supported specification", "detail": f"{impl_site(e)}: {str(e)[:300]}", "key": f"raise:{impl_site(e)}", "shrink_case": rc})
         return out
